@@ -27,6 +27,11 @@ import json,sys,re
 dst,resf=sys.argv[1:3]
 lines=[l for l in open(resf).read().strip().split("\n") if l]
 d=json.load(open(dst+"/meta.json"))
+# merge: lines of checks that were not re-run are kept
+new={re.match(r'check=(C\d+)',l).group(1):l for l in lines}
+kept=[l for l in d.get("checks_run",[]) if re.match(r'check=(C\d+)',l).group(1) not in new]
+own=d["property"]
+lines=sorted(kept+lines,key=lambda l:(re.match(r'check=(C\d+)',l).group(1)!=own,))
 d["checks_run"]=lines
 d["caught_by_quick"]=[re.match(r'check=(C\d+)',l).group(1) for l in lines if ' exit=1 ' in l+' ']
 json.dump(d,open(dst+"/meta.json","w"),indent=1)
